@@ -116,7 +116,7 @@ def aggregate(prop, mod, tier, seed, results, reach, totals, lost, t0):
             inconclusive += 1
             reasons[r.get("reason", "?")] = reasons.get(r.get("reason", "?"), 0) + 1
         else:
-            held += 1
+            held += max(1, len(r.get("sigs") or []))
             if r.get("sigs"):
                 for sg in r["sigs"]:
                     sigs.add(json.dumps(sg, sort_keys=True))
@@ -135,9 +135,14 @@ def aggregate(prop, mod, tier, seed, results, reach, totals, lost, t0):
             json.dump({"property": prop, "case": r["case"], "findings": unk, "trace": r.get("trace")},
                       open(path, "w"), indent=1, default=str)
             replay_paths.append(path)
-            out_lines.append(f"VIOLATION property={prop} replay={os.path.relpath(path, ROOT)}")
-            out_lines.append("  " + "; ".join(f"{f.get('mech')}: {f.get('clause', '')} {json.dumps(f.get('detail', {}), default=str)[:300]}"
-                                           for f in unk[:3]))
+            if len(replay_paths) <= 12:
+                out_lines.append(f"VIOLATION property={prop} replay={os.path.relpath(path, ROOT)}")
+            seen_m = {}
+            for f in unk:
+                seen_m.setdefault(f.get("mech"), f)
+            if len(replay_paths) <= 6:
+                out_lines.append("  " + "; ".join(f"{m}: {f.get('clause', '')} {json.dumps(f.get('detail', {}), default=str)[:240]}"
+                                               for m, f in list(seen_m.items())[:3]))
     for mech, hits in sorted(known_hits.items()):
         e = known[mech]
         out_lines.append(f"KNOWN-FINDING: property={prop} {e['id']} {e['what']} (hit in {len(hits)} cases, e.g. case "
